@@ -753,6 +753,7 @@ func (o *ovsdbClient) update3(params []json.RawMessage, reply *[]interface{}) er
 	err = db.cache.Update2(cookie, updates)
 	db.cacheMutex.RUnlock()
 
+	verifPoint("update3.applied")
 	if err == nil {
 		// Not under monitorsMutex: Monitor() holds that lock while it waits
 		// for a reply which only the read loop running this handler can
